@@ -11,6 +11,8 @@ import (
 	"context"
 	"errors"
 	"fmt"
+	"net/http/httptest"
+	"net/url"
 	"os"
 	"sort"
 	"strings"
@@ -18,6 +20,8 @@ import (
 	"testing"
 	"time"
 
+	"git.arvados.org/arvados.git/lib/controller/router"
+	"git.arvados.org/arvados.git/lib/controller/rpc"
 	"git.arvados.org/arvados.git/sdk/go/arvados"
 	"git.arvados.org/arvados.git/sdk/go/arvadostest"
 	"git.arvados.org/arvados.git/sdk/go/httpserver"
@@ -44,9 +48,27 @@ const (
 	c20ForeignNon    // honest page + an object nobody asked for
 	c20ForeignTarget // honest page + an object requested from another cluster
 	c20OnlyRepeat    // page consisting only of already delivered items
+	c20Hang          // stuck backend that honours cancellation: answers (with the context's error) only when its context is cancelled
 )
 
-var c20FaultNames = []string{"honest", "error", "empty", "noprogress", "repeat", "dup-in-page", "foreign-nontarget", "foreign-target", "only-repeats"}
+// wire stage: every stub sits behind router.New(stub) + an httptest server and is reached through
+// rpc.NewConn, as between two real controllers (and, half of the time, so is the federating Conn itself).
+// JSON does not distinguish []string from []interface{} of strings: both are printed as OStrs there.
+var c20WireMode bool
+
+func c20AllStrings(l []interface{}) ([]string, bool) {
+	out := []string{}
+	for _, e := range l {
+		s, ok := e.(string)
+		if !ok {
+			return nil, false
+		}
+		out = append(out, s)
+	}
+	return out, true
+}
+
+var c20FaultNames = []string{"honest", "error", "empty", "noprogress", "repeat", "dup-in-page", "foreign-nontarget", "foreign-target", "only-repeats", "hang-until-cancelled"}
 
 type c20Backend struct {
 	arvadostest.APIStub
@@ -92,11 +114,14 @@ func c20Batch(opts arvados.ListOptions) ([]string, bool) {
 		if l, ok := opts.Filters[0].Operand.([]string); ok {
 			return l, true
 		}
+		if l, ok := opts.Filters[0].Operand.([]interface{}); ok && c20WireMode {
+			return c20AllStrings(l)
+		}
 	}
 	return nil, false
 }
 
-func (b *c20Backend) answer(opts arvados.ListOptions) ([]c20Item, error) {
+func (b *c20Backend) answer(ctx context.Context, opts arvados.ListOptions) ([]c20Item, error) {
 	b.mtx.Lock()
 	defer b.mtx.Unlock()
 	n := len(b.calls)
@@ -148,6 +173,14 @@ func (b *c20Backend) answer(opts arvados.ListOptions) ([]c20Item, error) {
 			return nil, errors.New("stub failure without status")
 		}
 		return nil, httpserver.ErrorWithStatus(errors.New("stub failure"), b.errCode)
+	case c20Hang:
+		// recorded before blocking, so that the log of a call that never returns shows it
+		rec.code = 499
+		b.calls = append(b.calls, rec)
+		b.mtx.Unlock()
+		<-ctx.Done()
+		b.mtx.Lock()
+		return nil, ctx.Err()
 	case c20Empty:
 	case c20NoProgress:
 		us = append(us, b.nontarget[b.r.Intn(len(b.nontarget))])
@@ -192,7 +225,7 @@ func (b *c20Backend) answer(opts arvados.ListOptions) ([]c20Item, error) {
 }
 
 func (b *c20Backend) CollectionList(ctx context.Context, o arvados.ListOptions) (arvados.CollectionList, error) {
-	its, err := b.answer(o)
+	its, err := b.answer(ctx, o)
 	var l arvados.CollectionList
 	for _, it := range its {
 		l.Items = append(l.Items, arvados.Collection{UUID: it.uuid, ModifiedAt: time.Unix(it.t, 0)})
@@ -200,7 +233,7 @@ func (b *c20Backend) CollectionList(ctx context.Context, o arvados.ListOptions) 
 	return l, err
 }
 func (b *c20Backend) ContainerList(ctx context.Context, o arvados.ListOptions) (arvados.ContainerList, error) {
-	its, err := b.answer(o)
+	its, err := b.answer(ctx, o)
 	var l arvados.ContainerList
 	for _, it := range its {
 		l.Items = append(l.Items, arvados.Container{UUID: it.uuid, ModifiedAt: time.Unix(it.t, 0)})
@@ -208,7 +241,7 @@ func (b *c20Backend) ContainerList(ctx context.Context, o arvados.ListOptions) (
 	return l, err
 }
 func (b *c20Backend) ContainerRequestList(ctx context.Context, o arvados.ListOptions) (arvados.ContainerRequestList, error) {
-	its, err := b.answer(o)
+	its, err := b.answer(ctx, o)
 	var l arvados.ContainerRequestList
 	for _, it := range its {
 		l.Items = append(l.Items, arvados.ContainerRequest{UUID: it.uuid, ModifiedAt: time.Unix(it.t, 0)})
@@ -216,7 +249,7 @@ func (b *c20Backend) ContainerRequestList(ctx context.Context, o arvados.ListOpt
 	return l, err
 }
 func (b *c20Backend) GroupList(ctx context.Context, o arvados.ListOptions) (arvados.GroupList, error) {
-	its, err := b.answer(o)
+	its, err := b.answer(ctx, o)
 	var l arvados.GroupList
 	for _, it := range its {
 		l.Items = append(l.Items, arvados.Group{UUID: it.uuid, ModifiedAt: time.Unix(it.t, 0)})
@@ -224,7 +257,7 @@ func (b *c20Backend) GroupList(ctx context.Context, o arvados.ListOptions) (arva
 	return l, err
 }
 func (b *c20Backend) SpecimenList(ctx context.Context, o arvados.ListOptions) (arvados.SpecimenList, error) {
-	its, err := b.answer(o)
+	its, err := b.answer(ctx, o)
 	var l arvados.SpecimenList
 	for _, it := range its {
 		l.Items = append(l.Items, arvados.Specimen{UUID: it.uuid, ModifiedAt: time.Unix(it.t, 0)})
@@ -232,7 +265,7 @@ func (b *c20Backend) SpecimenList(ctx context.Context, o arvados.ListOptions) (a
 	return l, err
 }
 func (b *c20Backend) UserList(ctx context.Context, o arvados.ListOptions) (arvados.UserList, error) {
-	its, err := b.answer(o)
+	its, err := b.answer(ctx, o)
 	var l arvados.UserList
 	for _, it := range its {
 		l.Items = append(l.Items, arvados.User{UUID: it.uuid, ModifiedAt: time.Unix(it.t, 0)})
@@ -261,7 +294,7 @@ var c20Kinds = []string{"KCollection", "KContainer", "KContainerRequest", "KGrou
 
 // c20Guarded runs one Conn.<Type>List call in its own goroutine.  fate: 0 = returned, 1 = not back when
 // the watchdog expired (the goroutine is abandoned), 2 = panicked.
-func c20Guarded(conn *Conn, kind int, o arvados.ListOptions) (items []c20Item, err error, fate int, panicMsg string) {
+func c20Guarded(conn arvados.API, kind int, o arvados.ListOptions) (items []c20Item, err error, fate int, panicMsg string) {
 	type res struct {
 		items []c20Item
 		err   error
@@ -289,7 +322,7 @@ func c20Guarded(conn *Conn, kind int, o arvados.ListOptions) (items []c20Item, e
 	}
 }
 
-func c20Call1(conn *Conn, kind int, o arvados.ListOptions) (items []c20Item, err error) {
+func c20Call1(conn arvados.API, kind int, o arvados.ListOptions) (items []c20Item, err error) {
 	ctx := context.Background()
 	switch kind {
 	case 0:
@@ -348,6 +381,9 @@ func c20Operand(v interface{}) string {
 	case string:
 		return "(OStr " + gStr(x) + ")"
 	case []interface{}:
+		if l, ok := c20AllStrings(x); ok && c20WireMode {
+			return "(OStrs " + gStrs(l) + ")"
+		}
 		var ys []string
 		for _, e := range x {
 			if s, ok := e.(string); ok {
@@ -396,6 +432,8 @@ func TestVerifC20(t *testing.T) {
 	if stage == "" {
 		stage = "c20"
 	}
+	wire := strings.HasPrefix(stage, "c20wire")
+	c20WireMode = wire
 	cs := vNewCases(stage)
 	nStuck := 0
 	for i := 0; i < n; i++ {
@@ -441,10 +479,20 @@ func TestVerifC20(t *testing.T) {
 		}
 		var want []string
 		wantBy := map[string][]string{}
+		// wire stage: half of the requests name 26..39 objects of one cluster, so that the first batch sent
+		// there is too long for a query string (arvados.Client: >= 1000 bytes encoded -> POST with
+		// X-Http-Method-Override: GET and a form body) while later, smaller batches travel as plain GETs
+		big := ""
+		if wire && len(involved) > 0 && r.Chance(1, 2) {
+			big = involved[r.Intn(len(involved))]
+		}
 		for _, c := range involved {
 			k := 1 + r.Intn(4)
 			if r.Chance(1, 10) {
 				k = 5 + r.Intn(3)
+			}
+			if c == big {
+				k = 26 + r.Intn(14)
 			}
 			for j := 0; j < k; j++ {
 				u := c20UUID(r, c)
@@ -494,7 +542,7 @@ func TestVerifC20(t *testing.T) {
 			switch x := r.Intn(10); {
 			case len(l) == 1 && x < 5:
 				return arvados.Filter{Attr: "uuid", Operator: "=", Operand: l[0]}
-			case x < 7:
+			case x < 7 && !wire:
 				return arvados.Filter{Attr: "uuid", Operator: "in", Operand: asIface(l, r.Chance(1, 5))}
 			default:
 				return arvados.Filter{Attr: "uuid", Operator: "in", Operand: append([]string{}, l...)}
@@ -560,7 +608,7 @@ func TestVerifC20(t *testing.T) {
 			k := r.Intn(len(filters) + 1)
 			filters = append(filters[:k], append([]arvados.Filter{f}, filters[k:]...)...)
 		}
-		badOperand := pert(1, 6)
+		badOperand := !wire && pert(1, 6)
 		if badOperand {
 			var f arvados.Filter
 			switch r.Intn(5) {
@@ -584,7 +632,8 @@ func TestVerifC20(t *testing.T) {
 		}
 		if pert(1, 4) {
 			opts.Limit = int64([]int{0, 1, 10, 1000}[r.Intn(4)])
-		} else if r.Chance(1, 10) {
+		} else if r.Chance(1, 10) && !wire {
+			// (rpc.Conn drops every negative limit from the request: the receiver sees -1)
 			opts.Limit = int64(-1 - r.Intn(3))
 		}
 		if pert(1, 5) {
@@ -592,15 +641,21 @@ func TestVerifC20(t *testing.T) {
 		}
 		if pert(1, 5) {
 			opts.Order = []string{r.Pick("uuid", "modified_at desc", "name asc")}
-		} else if r.Chance(1, 10) {
+		} else if r.Chance(1, 10) && !wire {
 			opts.Order = []string{}
 		}
-		switch r.Intn(6) {
-		case 0:
+		switch x := r.Intn(6); {
+		case wire && x == 0:
+			// (the router trims every returned object to the selected fields: keep the serial number)
+			opts.Select = []string{"uuid", "modified_at"}
+		case wire && x == 1:
+			opts.Select = []string{"modified_at", "uuid"}
+		case wire:
+		case x == 0:
 			opts.Select = []string{"uuid"}
-		case 1:
+		case x == 1:
 			opts.Select = []string{"name", "uuid"}
-		case 2:
+		case x == 2:
 			opts.Select = []string{}
 		}
 		if pert(1, 8) {
@@ -634,7 +689,11 @@ func TestVerifC20(t *testing.T) {
 					exist = append(exist, u)
 				}
 			}
-			for j := 0; j < r.Intn(3); j++ {
+			nx := 0
+			if wire {
+				nx = 1 + r.Intn(3) // an unfiltered list always shows objects nobody asked for
+			}
+			for j := 0; j < nx || (!wire && j < r.Intn(3)); j++ {
 				u := c20UUID(r, id)
 				b.exist[u] = true
 				exist = append(exist, u)
@@ -654,6 +713,9 @@ func TestVerifC20(t *testing.T) {
 				b.pageSize = 1 + r.Intn(4)
 			}
 			b.errCode = []int{404, 500, 503, 422, 401}[r.Intn(5)]
+			if id == big && b.pageSize > 0 && b.pageSize < 8 {
+				b.pageSize = 8 + r.Intn(24)
+			}
 			return b
 		}
 		bl := mk(local, 0)
@@ -737,10 +799,70 @@ func TestVerifC20(t *testing.T) {
 		}
 		conn.cluster.Login.LoginCluster = login
 		bl.updFail = r.Chance(1, 6)
-		items, err, fate, panicMsg := c20Guarded(conn, kind, opts)
+		// ---- "a failed request fails now": one involved cluster is certain to fail (error answer to its first
+		// call, or no backend at all) while another one is stuck until its context is cancelled.  Only where the
+		// failure is certain whatever the interleaving: a clean splittable request with a single uuid filter that
+		// is not forwarded to a login cluster (anything else either makes no backend call at all or could leave
+		// the stuck backend as the only one asked, which never returns in a correct tree either). ----
+		cancelScenario := false
+		if !wire {
+			forwarded := kind == 5 && login != "" && login != local && !opts.BypassFederation
+			var cands []string
+			for _, c := range involved {
+				if len(wantBy[c]) > 0 {
+					cands = append(cands, c)
+				}
+			}
+			if !dirty && nExtra == 0 && !noUUIDFilter && !forwarded && len(cands) >= 2 && r.Chance(1, 3) {
+				byID := map[string]*c20Backend{}
+				for _, b := range bes {
+					byID[b.id] = b
+				}
+				xi := r.Intn(len(cands))
+				yi := (xi + 1 + r.Intn(len(cands)-1)) % len(cands)
+				if byID[cands[yi]] == nil {
+					xi, yi = yi, xi // the stuck one must have a backend; the failing one may be the unknown cluster
+				}
+				x, y := byID[cands[xi]], byID[cands[yi]]
+				if x != nil {
+					x.faults = map[int]int{0: c20Err}
+				}
+				hc := []int{0, 0, 1}[r.Intn(3)]
+				y.faults[hc] = c20Hang
+				cancelScenario = true
+				faultTags = append(faultTags, "fault:"+c20FaultNames[c20Hang], "scenario:cancel-after-certain-failure")
+			}
+		}
+		// ---- wire stage: federation.Conn -> rpc.Conn -> HTTP -> router -> stub ----
+		var api arvados.API = conn
+		var servers []*httptest.Server
+		ingress := false
+		if wire {
+			tp := func(context.Context) ([]string, error) { return []string{"v2/" + local + "-gj3su-000000000000000/verif"}, nil }
+			via := func(id string, be arvados.API) *rpc.Conn {
+				srv := httptest.NewServer(router.New(be, nil))
+				servers = append(servers, srv)
+				u, _ := url.Parse(srv.URL)
+				return rpc.NewConn(id, u, false, tp)
+			}
+			conn.local = via(local, bl)
+			for id, b := range rem {
+				conn.remotes[id] = via(id, b)
+			}
+			if ingress = r.Bool(); ingress {
+				api = via(local, conn)
+			}
+		}
+		items, err, fate, panicMsg := c20Guarded(api, kind, opts)
 		code := c20Code(err)
 		if fate == 1 {
 			nStuck++
+		}
+		for _, srv := range servers {
+			srv.CloseClientConnections()
+			if fate == 0 {
+				srv.Close()
+			}
 		}
 
 		// ---- print ----
@@ -812,7 +934,7 @@ func TestVerifC20(t *testing.T) {
 			"select": opts.Select, "bypass": opts.BypassFederation, "forwarded_for": opts.ForwardedFor,
 			"exist": exist, "logs": logDesc, "code": code, "result": ru,
 			"login_cluster": login, "fate": []string{"returned", "STUCK: no answer within the watchdog period", "PANIC"}[fate],
-			"user_batch_updates": updDesc,
+			"user_batch_updates": updDesc, "wire": wire, "wire_ingress": ingress,
 		}
 		if fate == 2 {
 			desc["panic"] = panicMsg
@@ -833,6 +955,26 @@ func TestVerifC20(t *testing.T) {
 			fmt.Sprintf("clusters-involved:%d", len(involved)), fmt.Sprintf("filters:%d", len(filters))}
 		tags = append(tags, faultTags...)
 		tags = append(tags, "login:"+loginTag)
+		if wire {
+			nPost := 0
+			for _, l := range logDesc {
+				for _, e := range l.([]interface{}) {
+					if bt, _ := e.(map[string]interface{})["batch"].([]string); len(bt) >= 26 {
+						nPost++
+					}
+				}
+			}
+			if nPost > 0 {
+				tags = append(tags, "wire:batch>=26-uuids(form-body)")
+			}
+			if big != "" {
+				tags = append(tags, "wire:big-request")
+			}
+			if ingress {
+				tags = append(tags, "wire:ingress-through-router")
+			}
+		}
+		_ = cancelScenario
 		if kind == 5 {
 			tags = append(tags, "user-list-login:"+loginTag)
 			if len(updDesc) > 0 {
